@@ -557,9 +557,9 @@ def run(ctx):
             case(8, n, 0, o["d"], "", {"fn": "sec2dhms", "n": n})
             case(9, n, 0, o["h"], "", {"fn": "sec2hms", "n": n})
             dh_texts.append((o["d"], o["h"]))
-            if n > -2 ** 63:
-                if o["d"] != ref_sec2dhms(n) or o["h"] != ref_sec2hms(n):
-                    bad("sec2dhms-text", input=n, observed=[o["d"], o["h"]], expected=[ref_sec2dhms(n), ref_sec2hms(n)])
+            if o["d"] != ref_sec2dhms(n) or o["h"] != ref_sec2hms(n):  # every int64, -2**63 included (repaired 9852efdc5)
+                bad("dhms-roundtrip-minint64" if n == -2 ** 63 else "sec2dhms-text", input=n, observed=[o["d"], o["h"]], expected=[ref_sec2dhms(n), ref_sec2hms(n)],
+                    how="mlr -n put 'end{print sec2dhms(%d) . \" \" . sec2hms(%d)}'" % (n, n))
             if o["bd"] != ns or o["bh"] != ns:
                 bad("dhms-roundtrip-minint64" if n == -2 ** 63 else "dhms-roundtrip", input=n, observed={"sec2dhms": o["d"], "dhms2sec": o["bd"], "sec2hms": o["h"], "hms2sec": o["bh"]}, expected=ns,
                     how="mlr -n put 'end{print dhms2sec(sec2dhms(%d))}'" % n)
@@ -661,8 +661,32 @@ def zone_cases(ctx, zones, wlo, whi, pts, case, bad):
         allrows.append(rows)
         jobs.append(((["t"], rows, P(['sec2localtime($t, 0, "%s")' % name, 'localtime2sec(sec2localtime($t, 0, "%s"), "%s")' % (name, name),
                                       'gmt2localtime(sec2gmt($t), "%s")' % name, 'localtime2gmt(sec2localtime($t, 0, "%s"), "%s")' % (name, name), "sec2gmt($t)",
-                                      'strftime_local($t, "%%Y-%%m-%%d %%H:%%M:%%S", "%s")' % name]),
-                      ["l", "back", "g2l", "l2g", "g", "sfl"]), {}))
+                                      'strftime_local($t, "%%Y-%%m-%%d %%H:%%M:%%S", "%s")' % name,
+                                      'sec2localtime(localtime2sec(sec2localtime($t, 0, "%s"), "%s"), 0, "%s")' % (name, name, name),
+                                      # texts with a fraction just below the next second: the fraction is dropped, never rounded up
+                                      'gmt2localtime(nsec2gmt($t * 1000000000 + 999999999, 9), "%s")' % name,
+                                      'localtime2gmt(nsec2localtime($t * 1000000000 + 999999900, 9, "%s"), "%s")' % (name, name)]),
+                      ["l", "back", "g2l", "l2g", "g", "sfl", "l2", "g2lf", "l2gf"]), {}))
+    # the text-to-text conversions over the whole range of years 1..9999 (fixed d09b4afa6: they went through int64
+    # nanoseconds and wrapped around outside 1678..2262); fixed probes + random instants, every zone
+    wide = [-14831769600, 16725225600, -62135596800 + 400 * 86400, 253402300799 - 400 * 86400, -9223372037, 9223372037, -9223372036, 9223372036] + \
+           [ctx.rng.randint(-62135596800 + 400 * 86400, 253402300799 - 400 * 86400) for _ in range(8 if ctx.tier == "quick" else 200)]
+    wrows = [(str(t),) for t in wide]
+    wjobs = []
+    for z in zones:
+        name = z["name"]
+        wjobs.append(((["t"], wrows, P(['sec2localtime($t, 0, "%s")' % name, 'gmt2localtime(sec2gmt($t), "%s")' % name,
+                                        'localtime2gmt(sec2localtime($t, 0, "%s"), "%s")' % (name, name),
+                                        'sec2gmt(localtime2sec(sec2localtime($t, 0, "%s"), "%s"))' % (name, name), "sec2gmt($t)"]),
+                       ["l", "g2l", "l2g", "gl", "g"]), {}))
+    wres = par(ctx, wjobs)
+    for z, res in zip(zones, wres):
+        for (tstr,), o in zip(wrows, res):
+            ctx.count(("wide-range-text-conversion", z["name"], tstr))
+            if o["g2l"] != o["l"] or o["l2g"] != o["gl"] or ERR in (o["l"], o["g"]):
+                bad("gmt2localtime-localtime2gmt-wide-range", input={"t": int(tstr), "zone": z["name"], "gmt_text": o["g"]}, observed={"gmt2localtime": o["g2l"], "localtime2gmt": o["l2g"]},
+                    expected={"gmt2localtime = sec2localtime": o["l"], "localtime2gmt = sec2gmt(localtime2sec)": o["gl"]},
+                    how="mlr -n put 'end{print gmt2localtime(\"%s\", \"%s\")}'" % (o["g"], z["name"]))
     results = par(ctx, jobs)
     for zi, z in enumerate(zones):
         name = z["name"]
@@ -680,6 +704,9 @@ def zone_cases(ctx, zones, wlo, whi, pts, case, bad):
                 case(13, int(o["back"]), zi, o["l"], "", {"fn": "localtime2sec", "zone": name, "text": o["l"]})
             if o["g2l"] != o["l"] or o["sfl"] != o["l"]:
                 bad("gmt2localtime-vs-sec2localtime", input={"t": t, "zone": name}, observed=o)
+            if abs(t) < 9000000000 and (o["g2lf"] != o["l"] or o["l2gf"] != o["l2g"]):
+                bad("gmt2localtime-localtime2gmt-fraction-dropped", input={"t": t, "zone": name, "fraction": ".999999999 / .999999900"},
+                    observed={"gmt2localtime": o["g2lf"], "localtime2gmt": o["l2gf"]}, expected={"gmt2localtime": o["l"], "localtime2gmt": o["l2g"]})
             if tz is not None:
                 want = datetime.datetime.fromtimestamp(t, tz).strftime("%Y-%m-%d %H:%M:%S")
                 if want != o["l"]:
@@ -698,6 +725,12 @@ def zone_cases(ctx, zones, wlo, whi, pts, case, bad):
             cands = [wall - of for of in offs if off_at(wall - of) == of]
             if len(cands) == 1 and (o["back"] != str(t) or o["l2g"] != o["g"]):
                 bad("localtime-roundtrip", input={"t": t, "zone": name}, observed=o, expected=str(t))
+            # EVERY instant, overlap hours included (C16_local_round_trip_all_instants): the instant returned shows the same wall clock,
+            # and it is t or t shifted by the difference of two offsets of the table
+            if o["back"] == ERR or o["l2"] != o["l"] or (int(o["back"]) - t) not in set(a - b for a in offs for b in offs):
+                bad("localtime-roundtrip-same-reading", input={"t": t, "zone": name}, observed=o, expected="localtime2sec returns an instant with the same local text")
+            if len(cands) > 1:
+                ctx.dist("zone_overlap_instants")
     ctx.dist("zone_cases", n)
     # selection of the zone: --tz, TZ env, ENV["TZ"]; GMT functions unaffected
     t = 1500000000
